@@ -86,6 +86,11 @@ class WcBase(plumpy.WorkChain):
         self.trace = []
         self._attach()
 
+    def load_instance_state(self, saved_state, load_context):
+        super().load_instance_state(saved_state, load_context)
+        self.trace = []
+        self._attach()
+
     _attach = programs.ProgBase._attach
     _t = programs.ProgBase._t
 
@@ -203,6 +208,14 @@ class WcRun(lifecycle.Run):
             fut.add_done_callback(lambda _f, idx=idx: self.done_order.append(idx))
         self.children = {}
         self.completions = []  # (idx, outcome) in the order they were applied
+        if self.case.get('recreate'):
+            # the work chain under test is one recreated from the checkpoint of a freshly created one
+            saved, programs.CURRENT_REC = programs.CURRENT_REC, None
+            try:
+                bundle = plumpy.Bundle(cls(loop=loop))
+            finally:
+                programs.CURRENT_REC = saved
+            return bundle.unbundle(plumpy.LoadSaveContext(loop=loop))
         return cls(loop=loop)
 
     def awaitable_done(self, idx, kind):
